@@ -22,6 +22,8 @@ CANARIES = {
         ("set-ordered-extension-properties", "stix2/base.py", "text", ["toplevel_extension_props = list(registered_toplevel_extension_props)", "toplevel_extension_props = list(registered_toplevel_extension_props.keys() | kwargs.keys())"], "C01.spec-order"),
         ("isdigit-guards-int", "stix2/serialization.py", "text", ["if search_key.isdecimal():", "if search_key.isdigit():"], "C01.pretty-sort-key"),
         ("extension-inserted-after-construction", "stix2/custom.py", "text", ["            _cls_init(cls, self, kwargs)\n", "            _cls_init(cls, self, kwargs)\n            self._inner.setdefault('extensions', {})\n"], "C01.spec-order"),
+        ("extras-sorted", "stix2/base.py", "text", ["        toplevel_extension_props.extend(\n            k for k in kwargs\n            if k not in self._properties and k not in custom_kwargs\n            and k not in registered_toplevel_extension_props\n        )", "        toplevel_extension_props.extend(sorted(\n            k for k in kwargs\n            if k not in self._properties and k not in custom_kwargs\n            and k not in registered_toplevel_extension_props\n        ))"], "C01.spec-order"),
+        ("marking-payload-built-without-the-switch", "stix2/v21/common.py", "text", ["                    allow_custom=kwargs.get('allow_custom', False),\n                    interoperability=kwargs.get('interoperability', False),\n                    **defn\n", "                    interoperability=kwargs.get('interoperability', False),\n                    **defn\n"], "C01.custom-content-round-trip"),
     ],
     "C02": [
         ("required-lost", "stix2/v21/sdo.py", "drop-keyword", ["Identity", "drop required="], "C02.table"),
@@ -58,6 +60,7 @@ CANARIES = {
         ("extension-property-custom-via-custom-properties", "stix2/base.py", "text", ["            self._properties.keys() - registered_toplevel_extension_props.keys()\n        if all_custom_prop_names:", "            self._properties.keys()\n        if all_custom_prop_names:"], "C04.flag-back"),
         ("escape-on-types-without-extension-point", "stix2/base.py", "text", ["        if has_unregistered_toplevel_extension and \\\n                \"extensions\" not in self._properties and \\\n", "        if False and \\\n                \"x\" not in self.__dict__ and \\\n"], "C04.extra-props"),
         ("switch-read-from-kwargs-with-permissive-default", "stix2/v21/common.py", "text", ["                    allow_custom=kwargs.get('allow_custom', False),\n                    interoperability=kwargs.get('interoperability', False),\n                    **defn\n", "                    allow_custom=kwargs.get('allow_custom', True),\n                    interoperability=kwargs.get('interoperability', False),\n                    **defn\n"], "C04.forward"),
+        ("reference-flag-parenthesis-misplaced", "stix2/properties.py", "text", ["        has_custom = not is_object(obj_type, self.spec_version) \\\n            or obj_type.startswith(\"x-\")", "        has_custom = not (is_object(obj_type, self.spec_version)\n                          or obj_type.startswith(\"x-\"))"], "C04.flag-back"),
     ],
     "C05": [
         ("fudge-not-strict", "stix2/versioning.py", "flip-compare", ["_fudge_modified", "LtE -> Lt"], "C05.granularity"),
@@ -77,6 +80,7 @@ CANARIES = {
         ("tuples-hashed-as-text", "stix2/base.py", "text", ["elif isinstance(value, (list, tuple)):", "elif isinstance(value, list):"], "C06.wiring"),
         ("extension-inserted-after-id", "stix2/custom.py", "text", ["            _cls_init(cls, self, kwargs)\n", "            _cls_init(cls, self, kwargs)\n            self._inner['extensions'] = {}\n"], "C06.wiring"),
         ("two-spellings-last-one-wins", "stix2/properties.py", "text", ["            if spec_name in spec_dict and spec_dict[spec_name] != hash_v:\n", "            if False:\n"], "C06.order-free-cleaning"),
+        ("collision-test-case-folded", "stix2/properties.py", "text", ["            if spec_name in spec_dict and spec_dict[spec_name] != hash_v:", "            if spec_name in spec_dict and spec_dict[spec_name].lower() != hash_v.lower():"], "C06.order-free-cleaning"),
     ],
     "C07": [
         ("path-prefix", "stix2/markings/granular_markings.py", "drop-bool-operand", ["get_markings", "inherited", "drop operand 1", "startswith"], "C07.query-siblings"),
@@ -84,6 +88,7 @@ CANARIES = {
         ("object-itself-returned", "stix2/markings/object_markings.py", "text", ["    return new_version(obj, object_marking_refs=list(object_markings), allow_custom=True)", "    obj['object_marking_refs'] = list(object_markings)\n    return obj"], "C07.new-version"),
         ("lang-not-forwarded", "stix2/markings/__init__.py", "text", ["granular_markings.set_markings(obj, marking, selectors, marking_ref, lang)", "granular_markings.set_markings(obj, marking, selectors, marking_ref)"], "C07.forward"),
         ("substring-selector-match", "stix2/markings/granular_markings.py", "text", ["if s in granular_marking.get('selectors', []):", "if s in granular_marking.get('selectors', [])[0]:"], "C07.whole-selectors"),
+        ("compression-drops-implied-selectors", "stix2/markings/utils.py", "text", ["    compressed = \\\n        [", "    for item_ in list(map_):\n        map_[item_] = {s_ for s_ in map_[item_] if '.' not in s_}\n    compressed = \\\n        ["], "C07.normal-form"),
     ],
     "C08": [
         ("validate-skipped", "stix2/markings/granular_markings.py", "delete-call-stmt", ["add_markings", "utils.validate"], "C08.every-function"),
@@ -102,6 +107,8 @@ CANARIES = {
         ("ordered-by-canonical-text", "stix2/equivalence/pattern/transform/comparison.py", "text", ['        if ast.operator in ("MATCHES", "LIKE", "<", ">", "<=", ">="):', '        if ast.operator in ("MATCHES", "LIKE"):'], "C09.value-operators-only"),
         ("wildcard-index-as-string", "stix2/equivalence/pattern/compare/comparison.py", "text", ["                yield ANY_INDEX\n", "                yield comp.index\n"], "C09.type-guard"),
         ("nul-in-address-escapes", "stix2/equivalence/pattern/transform/specials.py", "text", ["            ip_bytes = socket.inet_aton(ip_str)\n        except (OSError, ValueError):", "            ip_bytes = socket.inet_aton(ip_str)\n        except OSError:"], "C09.type-guard"),
+        ("cidr-mask-zeroes-the-partial-byte", "stix2/equivalence/pattern/transform/specials.py", "text", ["    num_zero_bytes = (addr_size_bits - prefix_size) // 8", "    num_zero_bytes = addr_size_bytes - num_fixed_bytes"], "C09.special-values"),
+        ("followedby-absorbs-and", "stix2/equivalence/pattern/transform/observation.py", "text", ["                    elif type(child1) is type(child2):", "                    elif isinstance(child1, _CompoundObservationExpression):"], "C09.absorption"),
     ],
     "C10": [
         ("negation-constant", "stix2/pattern_visitor.py", "last-arg-false", ["visitPropTestSet", "InComparisonExpression"], "C10.not-aware"),
@@ -135,6 +142,7 @@ CANARIES = {
         ("collection-members-not-converted", "stix2/datastore/filters.py", "text", ["stix2.utils.parse_into_datetime(v)\n                if isinstance(v, (str, datetime)) else v", "v"], "C12.timestamp-coercion"),
         ("naive-datetime-value-compared-as-given", "stix2/datastore/filters.py", "text", ["isinstance(self.value, (str, datetime)):", "isinstance(self.value, str):"], "C12.timestamp-coercion"),
         ("path-step-into-plain-value-raises", "stix2/datastore/filters.py", "text", ["    if not isinstance(stix_obj, collections.abc.Mapping):\n", "    if False:\n"], "C12.conjunction"),
+        ("answer-before-the-operator-table", "stix2/datastore/filters.py", "text", ["        if self.op == \"=\":\n            return stix_obj_property == filter_value", "        if self.op in (\">\", \"<\") and not isinstance(stix_obj_property, type(filter_value)):\n            return False\n        if self.op == \"=\":\n            return stix_obj_property == filter_value"], "C12.operator-table"),
     ],
     "C13": [
         ("copy-removed", "stix2/properties.py", "unwrap-copy", ["ExtensionsProperty.clean", "copy.deepcopy"], "C13.no-param-mutation"),
@@ -150,6 +158,7 @@ CANARIES = {
         ("v20-property-built-with-default-version", "stix2/v20/sdo.py", "text", ["IDProperty(_type, spec_version='2.0')", "IDProperty(_type)"], "C14.version-in-scope"),
         ("toplevel-extensions-on-2.0-objects", "stix2/base.py", "text", ["        if isinstance(extensions, collections.abc.Mapping) and \\\n                not isinstance(self, stix2.v20._STIXBase20):", "        if isinstance(extensions, collections.abc.Mapping):"], "C14.version-constants"),
         ("new-object-escape-for-2.0", "stix2/parsing.py", "text", ['if version == "2.0" or not isinstance(extensions, collections.abc.Mapping):', 'if not isinstance(extensions, collections.abc.Mapping):'], "C14.version-constants"),
+        ("version-guard-replaced-by-a-property-name-test", "stix2/base.py", "text", ["                not isinstance(self, stix2.v20._STIXBase20):\n            # (STIX 2.0 has no extension definitions.)", "                \"spec_version\" in self._properties:\n            # (STIX 2.0 has no extension definitions.)"], "C14.version-constants"),
     ],
     "C15": [
         ("millisecond-two-digits", "stix2/utils.py", "int-1", ["format_datetime", "3 -> 2", ":3"], "C15.branch-table"),
@@ -161,6 +170,7 @@ CANARIES = {
         ("copy-loses-precision", "stix2/utils.py", "text", ["    def __reduce_ex__(self, protocol):", "    def _unused_reduce(self, protocol):"], "C15.value-object"),
         ("plain-date-unconverted", "stix2/utils.py", "text", ["    if not isinstance(dttm, dt.datetime):\n", "    if False:\n"], "C15.api-domain"),
         ("precision-compared-with-a-string", "stix2/v20/common.py", "text", ["== Precision.MILLISECOND:", "== 'millisecond':"], "C15.value-object"),
+        ("timestamp-text-rewritten-before-parsing", "stix2/properties.py", "text", ["    def clean(self, value, allow_custom=False):\n        return parse_into_datetime(\n            value, self.precision, self.precision_constraint,", "    def clean(self, value, allow_custom=False):\n        if isinstance(value, str):\n            value = value.replace(':60', ':59')\n        return parse_into_datetime(\n            value, self.precision, self.precision_constraint,"], "C15.property-forward"),
     ],
     "C16": [
         ("window-off-by-one", "stix2/canonicalization/NumberToJson.py", "int+1", ["21 -> 22"], "C16.number-constants"),
@@ -201,6 +211,7 @@ CANARIES = {
         ("newest-reversed", "stix2/datastore/__init__.py", "reverse-compare", ["CompositeDataSource.get", "ver > latest_ver"], "C18.newest"),
         ("related-objects-per-member", "stix2/datastore/__init__.py", "text", ["        results = super(CompositeDataSource, self).related_to(*args, **kwargs)\n", "        results = []\n        for ds in self.data_sources:\n            results.extend(ds.related_to(*args, **kwargs))\n"], "C18.navigation-over-union"),
         ("self-loop-twice", "stix2/datastore/__init__.py", "text", ["                target_filters.append(Filter('source_ref', '!=', obj_id))\n", "                pass\n"], "C18.navigation-over-union"),
+        ("source-dropped-when-a-store-is-given", "stix2/environment.py", "text", ["        if source:\n            self.source.add_data_source(source)", "        elif source:\n            self.source.add_data_source(source)"], "C18.member-forward"),
     ],
     "C19": [
         ("duplicate-refusal-removed", "stix2/registration.py", "drop-raise-guard", ["_register_observable", "OBJ_MAP_OBSERVABLE"], "C19.map-agreement"),
@@ -212,6 +223,7 @@ CANARIES = {
         ("extension-20-reference-rule", "stix2/registration.py", "text", ['_validate_props(combined_props, version, is_observable20=version == "2.0")', "_validate_props(combined_props, version)"], "C19.validation-before-write"),
         ("lookup-without-category", "stix2/parsing.py", "text", ['obj_class = registry.class_for_type(obj_type, version, "observables")', 'obj_class = registry.class_for_type(obj_type, version)'], "C19.version-scope"),
         ("reference-names-by-the-text-after-the-last-underscore", "stix2/registration.py", "text", ["        if prop_name.endswith(\"_ref\") and not isinstance(prop_obj, ref_prop_type):", "        tail = prop_name.rsplit(\"_\", 1)[-1]\n        if tail == \"ref\" and not isinstance(prop_obj, ref_prop_type):"], "C19.validation-before-write"),
+        ("property-table-aliases-the-callers-dict", "stix2/custom.py", "text", ["def _get_properties_dict(properties):\n    try:", "def _get_properties_dict(properties):\n    if isinstance(properties, dict):\n        return properties\n    try:"], "C19.validation-before-write"),
     ],
     "C20": [
         ("boundary-overlap", "stix2/confidence/scales.py", "int+1", ["value_to_wep", "39 -> 40"], "C20.specification"),
